@@ -281,6 +281,20 @@ def m_c08(sc, res):
                 fails.append(_f(f"{h}/ascmhl/{name}: references {sorted(got_refs.items())} expected {sorted(exp_refs.items())} (direct children that wrote: {kids})", sc))
             if len(m["references"]) != len(got_refs):
                 fails.append(_f(f"{h}/ascmhl/{name}: duplicate references", sc))
+            # a previous path names the entry in the SAME history: relative to that history's root, i.e. a path that an
+            # earlier generation of that history recorded
+            prevs = [(r["path"], r["prev"]) for r in m["records"] if r.get("prev")]
+            if prevs:
+                hb_ = O.histories(io_["asc_before"]).get(h, {"gens": []})
+                earlier = set()
+                for g in hb_["gens"]:
+                    try:
+                        earlier |= {r["path"] for r in O.parse_manifest_bytes(g[2])["records"]}
+                    except Exception:
+                        pass
+                for pth, pv in prevs:
+                    if pv not in earlier:
+                        fails.append(_f(f"{h}/ascmhl/{name}: {pth!r} carries previous path {pv!r}, which no earlier generation of this history recorded (paths are relative to the history's own root; recorded there: {sorted(earlier)[:8]})", sc))
             # nested root appears in the parent as a directory entry equal to the child's root hash
             if not sf:
                 for k in kids:
